@@ -497,7 +497,8 @@ func TypedValueToString(tv *sdcpb.TypedValue) string {
 	case *sdcpb.TypedValue_StringVal:
 		return tv.GetStringVal()
 	case *sdcpb.TypedValue_UintVal:
-		return strconv.Itoa(int(tv.GetUintVal()))
+		// not via int, values above 2^63 would turn negative
+		return strconv.FormatUint(tv.GetUintVal(), 10)
 	case *sdcpb.TypedValue_IdentityrefVal:
 		return tv.GetIdentityrefVal().Value
 	}
